@@ -665,7 +665,7 @@ impl XmlNode {
         children
             .iter()
             .rev()
-            .skip_while(|&v| v.order() != node.order())
+            .skip_while(|&v| v.id() != node.id())
             .nth(1)
             .cloned()
     }
@@ -683,7 +683,7 @@ impl XmlNode {
 
         children
             .iter()
-            .skip_while(|&v| v.order() != node.order())
+            .skip_while(|&v| v.id() != node.id())
             .nth(1)
             .cloned()
     }
